@@ -14,7 +14,17 @@
   * Cooperativity (tasks honour cancellation at once, waits end when their condition holds, the timed waits E, W, D,
     C, H are kept) is NOT built into the transition relation: `delay` is always enabled; a run is cooperative iff all
     its delays satisfy `coopDelay` (`runC`, `ReachC`). Theorems about time say so in their hypotheses.
-  Theorems that do not mention `cfg.fixed` / `cfg.coreWatched` hold for all variants.
+  * `cfg.orchShielded = false` is THE MODEL OF THE CURRENT TREE for the orchestrator's `except CancelledError:`: its
+    `await aiotasks.stop(ensemble tasks)` is NOT shielded, so a SECOND cancellation — `run_tasks` stopping the root
+    tasks after a stop request or another failure, while the orchestrator is already stopping its ensemble because an
+    ensemble task has failed — interrupts it: label `orchAbandon`, flag `abandoned` (finding C20-F8). Cancellation is
+    modelled per task as in the code: `queueing.watcher` (observers, ensemble watchers) shields its `finally:` and
+    suppresses a second cancellation; the daemon killer is cancelled only once; the orchestrator is the exception.
+    After `orchAbandon` the model does NOT describe the code any more (the code lets the cleanup run beside the orphaned
+    ensemble and drops the failure: `double_cancel_abandons_ensemble_witness`, replayed on kopf): every theorem about the
+    shutdown carries the EXACT guard `s.abandoned = false` ("the orchestrator was not double-cancelled"), which holds
+    for every reachable state of the variant `orchShielded = true` (`shielded_never_abandoned`: the proposed repair).
+  Theorems that do not mention `cfg.fixed` / `cfg.coreWatched` / `cfg.orchShielded` hold for all variants.
 -/
 import Kopf.Lemmas.C20_Trace
 import Kopf.Lemmas.C20_InvT
@@ -93,7 +103,7 @@ theorem ready_after_startup {cfg : Cfg} {s : State} (hr : Reach cfg s) (h : s.re
 /-- Once `run_tasks` has begun to stop the root tasks, EVERY other root task that is still alive has been cancelled
     (the request is pending) or is already in its `finally:`; `run_tasks` reaches the hung-task phase only when all
     root tasks have ended, and returns only when all hung tasks are gone as well. -/
-theorem root_failure_stops_all {cfg : Cfg} {s : State} (hr : ReachC cfg s) :
+theorem root_failure_stops_all {cfg : Cfg} {s : State} (hr : ReachC cfg s) (hna : s.abandoned = false) :
     ((s.rt = .stoppingRoots ∨ s.rt = .cStoppingRoots) → ∀ r, r ≠ .startupCleanup → (s.st (.root r)).live = true →
         s.creq (.root r) = true ∨ (s.st (.root r)).isStopping = true)
     ∧ (s.rt ≠ .waiting → s.rt ≠ .stoppingRoots → s.rt ≠ .cStoppingRoots → ∀ r, (s.st (.root r)).ended = true)
@@ -111,14 +121,17 @@ theorem root_failure_stops_all {cfg : Cfg} {s : State} (hr : ReachC cfg s) :
     rw [hungLive_false_iff]
     exact hC.exitedHung hex
 
-/-- THE RUN CALL RETURNS (progress). After a trigger — a stop was requested, a root task has ended for whatever
-    reason, or `run_tasks` is already stopping — every cooperatively reachable state has a continuation to `exited`
-    that consists of INTERNAL steps only (`internal`: no further action of the environment, no new failure) and is
-    itself cooperative. Together with `no_timelock` and `exit_bound_partial`: the shutdown cannot get stuck, cannot
-    be blocked with the clock stopped, and is over within the bound. -/
-theorem returns {cfg : Cfg} {s : State} (hr : ReachC cfg s) (ht : Triggered s) :
-    ∃ ls s', runI cfg s ls = some s' ∧ s'.rt = .exited :=
-  returns_aux (mu cfg s) s (Nat.le_refl _) hr ht
+/-- THE RUN CALL CAN RETURN (progress, as a POSSIBILITY: EF, not AF). After a trigger (`Triggered`: a stop was
+    requested, a root task has ended for whatever reason, `run_tasks` is already stopping, or a failure that the code
+    escalates has happened — `tFail`) every cooperatively reachable state that is not `abandoned` has a continuation to
+    `exited` that consists of INTERNAL steps only (`internal`: no further action of the environment, no new failure;
+    it contains the fairness assumptions: daemons exit, workers finish, the cleanup activity ends), is itself
+    cooperative and never abandons the ensemble. NOT proved: that EVERY fair continuation exits (inevitability).
+    Together with `no_timelock` and the bounds: the shutdown cannot get stuck, cannot be blocked with the clock
+    stopped, and — when it proceeds cooperatively — is over within the bound. -/
+theorem returns {cfg : Cfg} {s : State} (hr : ReachC cfg s) (ht : Triggered s) (hna : s.abandoned = false) :
+    ∃ ls s', runI cfg s ls = some s' ∧ s'.rt = .exited ∧ s'.abandoned = false :=
+  returns_aux (mu cfg s) s (Nat.le_refl _) hr ht hna
 
 /-- No timelock: whenever cooperativity forbids time to pass (`urgent`), some internal non-`delay` step is enabled —
     "time cannot pass" never means "nothing can happen". -/
@@ -136,7 +149,7 @@ theorem no_timelock {cfg : Cfg} {s : State} (hr : ReachC cfg s) (hne : s.rt ≠ 
     daemon the daemon killer has sent an exit stopper to (unless the killer itself crashed). Daemons that ignore
     their stopper, daemons spawned after the killer's `finally:`, and orphaned helper tasks may outlive the cleanup:
     they are "hung tasks" (`no_daemon_alive_at_return`). -/
-theorem cleanup_last {cfg : Cfg} {s : State} (hr : Reach cfg s) (h : s.cleanupBegun = true) :
+theorem cleanup_last {cfg : Cfg} {s : State} (hr : Reach cfg s) (h : s.cleanupBegun = true) (hna : s.abandoned = false) :
     (∀ r, r ≠ .startupCleanup → (s.st (.root r)).ended = true) ∧ s.core.live = false
     ∧ (∀ i, i < s.nSubs → (s.st (.sub i)).live = false)
     ∧ (∀ w o, s.wk w ≠ some (o, .running))
@@ -179,7 +192,11 @@ theorem cleanup_last {cfg : Cfg} {s : State} (hr : Reach cfg s) (h : s.cleanupBe
 
 /-- When `operator()` is over it has an outcome; it raises only if some root task failed, and it returns
     normally only if NO root task failed (the cancelled outcome is the operator's own cancellation). -/
-theorem reraise {cfg : Cfg} {s : State} (hr : Reach cfg s) (hex : s.rt = .exited) :
+/- NOTE on `reraise`: `run_tasks` re-raises the errors of the HUNG tasks as well (`reraise(root_done | root_cancelled |
+   hung_done | hung_cancelled)`). In the model no hung task fails: daemons and orphaned helpers only end. On kopf a hung task
+   fails when a daemon is spawned after the daemon killer's sweep and its `stopped.wait(n)` helper is cancelled — finding
+   C20-F9 (`TimeoutError` on a clean stop); such runs are reported by the oracle under that finding. -/
+theorem reraise {cfg : Cfg} {s : State} (hr : Reach cfg s) (hex : s.rt = .exited) (hna : s.abandoned = false) :
     ∃ r, s.result = some r ∧ (r = .raised → ∃ q, s.st (.root q) = .failed)
       ∧ (r = .returned → ∀ q, s.st (.root q) ≠ .failed) := by
   have hB := InvB.reach hr
@@ -195,7 +212,7 @@ theorem reraise {cfg : Cfg} {s : State} (hr : Reach cfg s) (hex : s.rt = .exited
 
 /-- No daemon task is alive when `operator()` is over (whoever ended it: its exit stopper, or the hung-task
     cancellation of `run_tasks`; see `cleanup_last` for what is over BEFORE the cleanup). -/
-theorem no_daemon_alive_at_return {cfg : Cfg} {s : State} (hr : Reach cfg s) (hex : s.rt = .exited) :
+theorem no_daemon_alive_at_return {cfg : Cfg} {s : State} (hr : Reach cfg s) (hex : s.rt = .exited) (hna : s.abandoned = false) :
     ∀ d, d < s.nDaemons → s.dm d = .ended := by
   intro d hd
   have h1 := ((InvC.reach hr).exitedHung hex).2.1 d hd
@@ -208,7 +225,7 @@ theorem no_daemon_alive_at_return {cfg : Cfg} {s : State} (hr : Reach cfg s) (he
 /-- The peering record: when `operator()` is over every keep-alive task has ended, and none ends without having
     ATTEMPTED the withdrawal (`lifetime=0` PATCH). FULL CLAUSE "the record is withdrawn" is NOT provable: kopf logs
     and ignores a failure of that PATCH (`peering.keepalive`'s `finally:`), see `withdrawal_may_fail_witness`. -/
-theorem peering_withdrawal_attempted {cfg : Cfg} {s : State} (hr : Reach cfg s) (hex : s.rt = .exited)
+theorem peering_withdrawal_attempted {cfg : Cfg} {s : State} (hr : Reach cfg s) (hex : s.rt = .exited) (hna : s.abandoned = false)
     (i : Nat) (hi : i < s.nSubs) (hk : s.kind i = .pinger) :
     (s.st (.sub i)).ended = true ∧ s.withdrawn i = true := by
   have hB := InvB.reach hr
@@ -291,7 +308,7 @@ theorem worker_failure_reaches_watcher_partial {cfg : Cfg} {s s' : State} (hr : 
     FAILED and is not "gone" (HTTP 404 cannot overtake the pending cancellation). For a root observer that is a
     root failure; for an ensemble task the running orchestrator is cancelled at once and cooperative time cannot
     pass (then `stream_failure_stops_all`, `root_failure_stops_all`, `returns`). -/
-theorem worker_failure_stops_all {cfg : Cfg} (hfix : cfg.fixed = true) {s : State} (hr : Reach cfg s) :
+theorem worker_failure_stops_all {cfg : Cfg} (hfix : cfg.fixed = true) {s : State} (hr : Reach cfg s) (hna : s.abandoned = false) :
     (∀ r, s.werr (.root r) = true → (s.st (.root r)).ended = true →
         s.st (.root r) = .failed ∧ s.rootFailed = true ∧ (s.rt = .waiting → ∀ n, coopDelay cfg s n = false))
     ∧ (∀ i, s.werr (.sub i) = true → (s.st (.sub i)).ended = true →
@@ -338,7 +355,7 @@ theorem worker_failure_stops_all {cfg : Cfg} (hfix : cfg.fixed = true) {s : Stat
     daemons) + `C` (cleanup activity) + `H` (hung tasks, 5 s). For a NON-cooperative run nothing bounds the exit
     (`aiotasks.stop` has no timeout): `noncooperative_exit_unbounded_witness`. The time between a failure and `t0` is
     covered by `failure_to_stop_bound_partial`. -/
-theorem exit_bound_partial {cfg : Cfg} {s : State} (hr : ReachC cfg s) (t : Nat) (ht : s.t0 = some t) :
+theorem exit_bound_partial {cfg : Cfg} {s : State} (hr : ReachC cfg s) (hna : s.abandoned = false) (t : Nat) (ht : s.t0 = some t) :
     s.now ≤ t + cfg.E + cfg.W + cfg.D + cfg.C + cfg.H ∧
     (∀ x, s.exitAt = some x → x ≤ t + cfg.E + cfg.W + cfg.D + cfg.C + cfg.H) := by
   have hC := InvC.reach hr.reach
@@ -365,7 +382,7 @@ theorem exit_bound_partial {cfg : Cfg} {s : State} (hr : ReachC cfg s) (t : Nat)
     `coreWatched`). `run_tasks` stops waiting within `2·(E+W+D)` of it (the failing task's own `finally:`, then — for
     an ensemble task — the orchestrator stopping the other streams), hence the operator is gone within
     `3·(E+W+D) + C + H` of the failure. This is the bound the oracle of the harness uses for runs with a failure. -/
-theorem failure_to_stop_bound_partial {cfg : Cfg} {s : State} (hr : ReachC cfg s) (tf : Nat)
+theorem failure_to_stop_bound_partial {cfg : Cfg} {s : State} (hr : ReachC cfg s) (hna : s.abandoned = false) (tf : Nat)
     (htf : s.tFail = some tf) :
     (s.rt = .waiting → s.now ≤ tf + 2 * (cfg.E + cfg.W + cfg.D))
     ∧ (∀ t, s.t0 = some t → t ≤ tf + 2 * (cfg.E + cfg.W + cfg.D))
@@ -382,14 +399,14 @@ theorem failure_to_stop_bound_partial {cfg : Cfg} {s : State} (hr : ReachC cfg s
   · have := h1 hw; omega
   · obtain ⟨t, ht, _⟩ := hC.t0Some hw
     have := h2 t ht
-    have := (exit_bound_partial hr t ht).1
+    have := (exit_bound_partial hr hna t ht).1
     omega
 
 /-! ### The stream / worker failure clause (ensemble tasks) -/
 
 /-- HISTORICAL: the model of the code BEFORE /repo 9ef1bcb (no edge from the ensemble tasks to the orchestrator),
     with the default grace periods in ticks of 1/64 s. -/
-def cfgHistorical : Cfg := { fixed := false, coreWatched := false, E := 128, W := 264, D := 64, C := 32, H := 320 }
+def cfgHistorical : Cfg := { fixed := false, coreWatched := false, orchShielded := false, E := 128, W := 264, D := 64, C := 32, H := 320 }
 
 /-- THE CURRENT TREE: what `Kopf/Tie/C20.lean` proves equal to the facts extracted from the source. -/
 def cfgHead : Cfg := headCfg 128 264 64 32 320
@@ -402,6 +419,10 @@ def cfgCoreUnwatched : Cfg := { cfgHead with coreWatched := false }
 def cfgProposed : Cfg := { cfgHead with coreWatched := true }
 
 theorem cfgProposed_eq_head : cfgProposed = cfgHead := rfl
+
+/-- the tree with the proposed repair of C20-F8 (`/verif/proposals/fix-C20F8.diff`): the orchestrator shields the stop of
+    its ensemble from further cancellations -/
+def cfgShielded : Cfg := { cfgHead with orchShielded := true }
 
 /-- startup succeeds, every guarded task and the core task enter -/
 def startAll : List Label :=
@@ -436,7 +457,7 @@ theorem historical_stream_failure_lingers_witness (n : Nat) (hn : 0 < n) :
     the running orchestrator at once (no cooperative time passes), the orchestrator then can only end FAILED, i.e. a
     root failure: everything is stopped (`root_failure_stops_all`), the run call returns (`returns`, within
     `failure_to_stop_bound_partial`), and not normally. -/
-theorem stream_failure_stops_all {cfg : Cfg} (hfix : cfg.fixed = true) {s : State} (hr : Reach cfg s) :
+theorem stream_failure_stops_all {cfg : Cfg} (hfix : cfg.fixed = true) {s : State} (hr : Reach cfg s) (hna : s.abandoned = false) :
     (∀ i s', s.st (.root .orchestrator) = .running → s.gone i = false →
         step cfg s (.subEnd i .failed) = some s' →
         s'.creq (.root .orchestrator) = true ∧ s'.orchErr = true ∧ ∀ n, coopDelay cfg s' n = false)
@@ -575,7 +596,7 @@ theorem historical_core_failure_skips_cleanup_witness :
     end only FAILED (or cancelled, when a stop is already under way); if it is not running any more, a root task
     has already ended (`Triggered`). Either way everything is stopped (`root_failure_stops_all`), the run call returns
     (`returns`) and raises; and the cleanup activity is NOT skipped: the error is re-raised after it. -/
-theorem core_failure_stops_all {cfg : Cfg} (hcw : cfg.coreWatched = true) {s : State} (hr : Reach cfg s)
+theorem core_failure_stops_all {cfg : Cfg} (hcw : cfg.coreWatched = true) {s : State} (hr : Reach cfg s) (hna : s.abandoned = false)
     (hc : s.core = .failed) :
     (s.st (.root .coreWatcher) = .running → s.rt ≠ .exited →
         (∀ n, coopDelay cfg s n = false) ∧ (step cfg s (.rootEnd .coreWatcher .failed)).isSome = true)
@@ -624,6 +645,54 @@ theorem core_failure_stops_all {cfg : Cfg} (hcw : cfg.coreWatched = true) {s : S
     · rw [if_neg (by simp [hcw])] at h
       cases h; rfl
     · cases h
+
+/-! ### The double-cancelled orchestrator: finding C20-F8 -/
+
+/-- startup; the orchestrator spawns a watcher and a keep-alive task; the watcher's stream fails → the orchestrator is
+    cancelled by its done-callback and begins to stop the ensemble (the keep-alive task enters its `finally:`: the
+    withdrawal takes time); a stop flag is raised, the stop-flag checker ends, `run_tasks` cancels ALL pending root
+    tasks — the orchestrator a second time -/
+def doubleCancelPrefix : List Label :=
+  startAll ++ [.subSpawn .watcher, .subSpawn .pinger, .subStopping 0 true, .subEnd 0 .failed,
+               .rootStopping .orchestrator true, .subStopping 1 false,
+               .setStopFlag, .rootEnd .stopFlag .done, .rtStopRoots]
+
+/-- WITNESS about the CURRENT tree (`cfgHead`, finding C20-F8; replayed on kopf: corpus `C20-F8`, trigger
+    `failure_then_stop`): the second cancellation reaches the orchestrator while it stops its ensemble (`creq` on a
+    `stopping` orchestrator: cooperative time cannot pass) and `orchAbandon` is enabled: the orchestrator gives its
+    ensemble up — with the keep-alive task still withdrawing (live), the failure recorded (`orchErr`) but not yet raised,
+    and the cleanup not begun. What the code does from here (the cleanup activity runs beside the keep-alive task, the
+    orchestrator ends CANCELLED, `operator()` returns normally) contradicts `cleanup_last`, `stream_failure_stops_all`
+    and `reraise` without their guard `abandoned = false`; the model stops describing the code at this label. -/
+theorem double_cancel_abandons_ensemble_witness :
+    ∃ s0 s, runC cfgHead init doubleCancelPrefix = some s0
+      ∧ s0.abandoned = false ∧ (s0.st (.root .orchestrator)).isStopping = true ∧ s0.creq (.root .orchestrator) = true
+      ∧ urgent cfgHead s0 = true
+      ∧ step cfgHead s0 .orchAbandon = some s
+      ∧ s.abandoned = true ∧ s.orchErr = true ∧ (s.st (.sub 1)).live = true ∧ s.kind 1 = .pinger ∧ s.withdrawn 1 = false
+      ∧ s.cleanupBegun = false ∧ s.rt = .stoppingRoots ∧ s.result = none :=
+  ⟨_, _, rfl, by decide, by decide, by decide, by decide, rfl, by decide, by decide, by decide, by decide, by decide,
+   by decide, by decide, by decide⟩
+
+/-- In the variant `orchShielded` (the proposed repair) no run ever abandons the ensemble: the guard `abandoned = false`
+    of the shutdown theorems is met by every reachable state. -/
+theorem shielded_never_abandoned {cfg : Cfg} (hsh : cfg.orchShielded = true) {s : State} (hr : Reach cfg s) :
+    s.abandoned = false := by
+  refine Reach.induction (P := fun s => s.abandoned = false) rfl ?_ s hr
+  intro s s' l _ hI h
+  by_cases hl : l = .orchAbandon
+  · subst hl
+    simp only [step] at h
+    split at h
+    · rename_i hh; rw [hsh] at hh; exact absurd hh.2.1 (by simp)
+    · cases h
+  · rw [abandoned_step h hl]; exact hI
+
+/-- … the same prefix on the repaired variant: the second cancellation does not reach the stopping orchestrator,
+    `orchAbandon` is not enabled (hypothesis of `shielded_never_abandoned` on a non-trivial state) -/
+example : ∃ s0, runC cfgShielded init doubleCancelPrefix = some s0
+    ∧ s0.creq (.root .orchestrator) = false ∧ step cfgShielded s0 .orchAbandon = none ∧ s0.orchErr = true :=
+  ⟨_, rfl, by decide, by decide, by decide⟩
 
 /-! ### What the code does NOT guarantee (witnesses about the current tree) -/
 
